@@ -92,7 +92,7 @@ Definition check_hint (cf : cfg) (hf : bytes -> N) (d : dirstate) (b : bucket) (
     let files := valid_prefix (nth c (dr_hintfiles d) []) in
     let b1 := match files with
               | [] => b
-              | _ => set_hints b (upd (b_hints b) c (mkHC (files ++ [split0]) false)) (b_hmax b) (b_maxdumped b)
+              | _ => set_hints b (updd hchunk0 (b_hints b) c (mkHC (files ++ [split0]) false)) (b_hmax b) (b_maxdumped b)
               end in
     let ds := hint_datasize files in
     if ds <? k_size k then build_hint cf hf b1 c ds else b1.
